@@ -204,7 +204,8 @@ def r1(ctx):
     pads = [x for x in walk(ffn["body"]) if x.get("k") == "call" and x["callee"] == "tensor::pad3d"]
     okp = False
     if len(pads) == 1:
-        tup = strip(pads[0]["args"][1])
+        from ..hir import resolve as _res, let_table as _lt
+        tup = _res(pads[0]["args"][1], _lt(ffn["body"]))      # `pad3d(&x, padded)` with `let padded = (ph, pw)`
         t2 = dict(S)
         for n_ in ("tensor", "x", "input"):
             t2["len(%s[0])" % n_] = IH
